@@ -99,6 +99,7 @@ func startFixture() (*fixture, error) {
 	}
 	f.a = a
 	fixStart++
+	ev.Get("C20").AddExtra("plugin_pairs_launched", 1)
 	if err := f.healthy(); err != nil {
 		f.stop()
 		return nil, fmt.Errorf("plugins not serving after start: %w", err)
@@ -671,11 +672,6 @@ func TestProp_C20(t *testing.T) {
 	if _, err := getFixture(); err != nil {
 		t.Fatalf("C20 fixture: %v", err)
 	}
-	defer func() {
-		if fix != nil {
-			ev.Get("C20").SetExtra("plugin_pairs_launched", fixStart)
-		}
-	}()
 	ev.Run(t, "C20", genC20, runC20)
 }
 
